@@ -343,7 +343,7 @@ def r4(ctx, R):
             R.bad(fi, fi.node, "sub spaces are not re-derived after the edit", stmt="update_subs")
     us = ctx.func("SharedSpaceOperations.update_subs")
     R.inst("update_subs: cells and own_refs of every sub, from its own MRO")
-    attrs = [n for n in walk_local(us.node) if isinstance(n, ast.Tuple) and all(isinstance(e, ast.Constant) for e in n.elts)
+    attrs = [n for n in walk_local(us.node) if isinstance(n, (ast.Tuple, ast.List)) and all(isinstance(e, ast.Constant) for e in n.elts)
              and {e.value for e in n.elts} == {"cells", "own_refs"}]
     oi = q.calls(us, name="on_inherit")
     if not attrs or not _sub_loops(us) or not oi or [norm(a) for a in oi[0].args] != ["self", "b", "attr"] or \
